@@ -767,7 +767,8 @@ func init() {
 	register(&vf.Check{
 		ID:        "C02",
 		Technique: "runtime monitor: position-dependent byte generator verified on both ends of real TCP connections (sonic.Dial, accepted, AsyncAdapter over net.TCPConn), canary-filled read buffers, counts reconciled at quiescence",
-		Rule: "cases = one connection (dialed / accepted / adapter), shrunken socket buffers in half of them, 20 KB-4 MB in each direction: reads and writes (Async*, Async*All, blocking) with buffer sizes {1,2,7,64,1K,64K,1M} interleaved with peer writes in chunks of {1 byte, small random, MSS multiples, huge}, peer drains, polls, Cancel of in-flight operations (the script continues from the reported counts), one operation in five started at the dispatch limit, reads through ByteBuffer.AsyncReadFrom and writes through ByteBuffer.WriteTo(conn) with up to 8 MiB staged, an 8 MiB adapter write cut short by a 40 ms deadline, and a peer half-close or reset in the middle of a third of the cases; " +
+		Rule: "reads through ByteBuffer.AsyncReadFrom use one buffer per case that fills up read after read (room down to one byte); every fifth case first makes a connection with a PRNG-chosen set of socket options (ReuseAddr, NoDelay, ReusePort; dialed or accepted through a sonic listener), completes an AsyncWriteAll of 0.3-2 MB against a slowly reading peer, closes at once and has the peer read to the end; " +
+			"cases = one connection (dialed / accepted / adapter), shrunken socket buffers in half of them, 20 KB-4 MB in each direction: reads and writes (Async*, Async*All, blocking) with buffer sizes {1,2,7,64,1K,64K,1M} interleaved with peer writes in chunks of {1 byte, small random, MSS multiples, huge}, peer drains, polls, Cancel of in-flight operations (the script continues from the reported counts), one operation in five started at the dispatch limit, reads through ByteBuffer.AsyncReadFrom and writes through ByteBuffer.WriteTo(conn) with up to 8 MiB staged, an 8 MiB adapter write cut short by a 40 ms deadline, and a peer half-close or reset in the middle of a third of the cases; " +
 			"non-trivial = at least one ReadAll/WriteAll that needed >= 2 wake-ups (the transfer was split by would-block); distinct = (transport, buffers, chunking, termination, number of such operations, read/write overlaps)",
 		Assumptions: []string{
 			"TCP may coalesce or split arbitrarily: the oracle is offset-based and never assumes segment boundaries",
